@@ -129,11 +129,22 @@ Section Items.
   Definition flatten (its : list item) : list line :=
     flat_map (fun it => match it with Plain l => [l] | Pair o c => [o; c] end) its.
 
+  (* A fresh-file element that is not a tag line may be any chunk of text (several lines, or none).
+     [vis l] = the lines that the written form of the chunk reads back as. *)
+  Variable vis : line -> list line.
+
   (* What createoutput writes for a file whose tag pairs hold the blocks U (blocks as they are on disk):
-     the fresh file with U's block spliced in directly after each opening tag. *)
-  Definition disk (U : key -> list line) (its : list item) : list line :=
+     the fresh file with U's block spliced in directly after each opening tag (as written elements) *)
+  Definition written_items (U : key -> list line) (its : list item) : list line :=
     flat_map (fun it => match it with
                         | Plain l => [T l]
+                        | Pair o c => T o :: U (kof o) ++ [T c]
+                        end) its.
+
+  (* ... and the lines that content is read back as *)
+  Definition disk (U : key -> list line) (its : list item) : list line :=
+    flat_map (fun it => match it with
+                        | Plain l => vis l
                         | Pair o c => T o :: U (kof o) ++ [T c]
                         end) its.
 
